@@ -121,6 +121,19 @@ Definition prop_idempotent (args : list bytes) : bytes :=
   | _ => bs "badargs"
   end.
 
+(* CompactJSON on any bytes panics exactly on the texts the scanner refuses, and never on a text the
+   validity gate accepts.  [t; obs] with obs from run_compact_raw *)
+Definition prop_compact_safe (args : list bytes) : bytes :=
+  match args with
+  | [t; obs] =>
+      let panicked := bytes_eqb obs (bs "PANIC") in
+      if json_valid t && panicked then bs "FAIL CompactJSON panics on valid JSON"
+      else if Bool.eqb panicked (negb (compact_safe t)) then bs "ok"
+      else if panicked then bs "FAIL panic on a text the scanner calls safe"
+      else bs "FAIL no panic on a text the scanner calls unsafe"
+  | _ => bs "badargs"
+  end.
+
 Definition first_failure (rs : list bytes) : bytes :=
   fold_right (fun r acc => if bytes_eqb r (bs "ok") then acc else r) (bs "ok") rs.
 
@@ -186,4 +199,5 @@ Definition ops_C01 : list (bytes * (list bytes -> bytes)) :=
     (bs "C01.prop.idempotent", prop_idempotent);
     (bs "C01.prop.all", prop_all);
     (bs "C01.prop.unique", prop_unique);
+    (bs "C01.prop.compact_safe", prop_compact_safe);
     (bs "C01.prop.enforced", prop_enforced) ].
